@@ -6,6 +6,7 @@
 mod gen_chars;
 mod ops_more;
 mod ops_seq;
+mod ops_order;
 mod ops;
 mod spec;
 
